@@ -19,6 +19,8 @@ fn main() {
             ("mani-child-run", manicheck::child_run),
             ("mani-child-recover", manicheck::child_recover),
             ("mani-child-io", manicheck::child_io),
+            ("mani-child-hold", manicheck::child_hold),
+            ("mani-child-wait", manicheck::child_wait),
         ],
     );
 }
